@@ -212,3 +212,309 @@ Example ex_line_from_arrow_scalar_offset_ignored :
   point_intersects 6 6 (ShLine (BPlain 4 6 (map Some [0; 0; 1; 1; 5; 5; 6; 6; 7; 7]%Z)))
   = Some (Value false).
 Proof. vm_compute; reflexivity. Qed.
+
+(* ---- A-FLOAT (DESIGN 3.1) as a theorem: float64 evaluation = evaluation in Z ----
+   Model/FloatKernels.v transcribes the numba kernels over IEEE binary64 (Coq's
+   primitive floats; tied to the real kernels on arbitrary float64 inputs by
+   harness/cfloat_util.py).  On the images [Z2F z] of integers |z| <= 2^25 (proved to
+   be the finite binary64 of value z: C01_Z2F_is_the_integer) the float kernels
+   return exactly what the integer models used by every theorem above return
+   (Proofs/FloatExact.v). *)
+From SP Require Model.FloatKernels Proofs.FloatExact.
+
+Theorem C02_segment_intersects_point_float_exact : forall ax0 ay0 ax1 ay1 bx by_ : Z,
+  (Z.abs ax0 <= 2 ^ 25)%Z -> (Z.abs ay0 <= 2 ^ 25)%Z ->
+  (Z.abs ax1 <= 2 ^ 25)%Z -> (Z.abs ay1 <= 2 ^ 25)%Z ->
+  (Z.abs bx <= 2 ^ 25)%Z -> (Z.abs by_ <= 2 ^ 25)%Z ->
+  FloatKernels.fsegment_intersects_point
+    (FloatKernels.Z2F ax0) (FloatKernels.Z2F ay0) (FloatKernels.Z2F ax1) (FloatKernels.Z2F ay1)
+    (FloatKernels.Z2F bx) (FloatKernels.Z2F by_) =
+  segment_intersects_point ax0 ay0 ax1 ay1 bx by_.
+Proof. exact FloatExact.segment_intersects_point_float_exact. Qed.
+Print Assumptions C02_segment_intersects_point_float_exact.
+
+Theorem C02_point_intersects_polygon_float_exact :
+  forall (x y : Z) (values : list Z) (offs : list nat),
+  (Z.abs x <= 2 ^ 25)%Z -> (Z.abs y <= 2 ^ 25)%Z ->
+  Forall (fun z => (Z.abs z <= 2 ^ 25)%Z) values ->
+  FloatKernels.fpoint_intersects_polygon
+    (FloatKernels.Z2F x) (FloatKernels.Z2F y) (map FloatKernels.Z2F values) offs =
+  point_intersects_polygon x y values offs.
+Proof. exact FloatExact.point_intersects_polygon_float_exact. Qed.
+Print Assumptions C02_point_intersects_polygon_float_exact.
+
+(* the same for ANY finite floats whose values are those integers (e.g. -0.0 for 0):
+   [FloatExact.FintS f z] := f is finite, its real value is IZR z, and |z| <= 2^25 *)
+Theorem C02_point_intersects_polygon_float_exact_rel :
+  forall x y zx zy fs zs offs,
+  FloatExact.FintS x zx -> FloatExact.FintS y zy -> Forall2 FloatExact.FintS fs zs ->
+  FloatKernels.fpoint_intersects_polygon x y fs offs = point_intersects_polygon zx zy zs offs.
+Proof. exact FloatExact.point_intersects_polygon_float_exact_rel. Qed.
+Print Assumptions C02_point_intersects_polygon_float_exact_rel.
+
+(* non-vacuity: the float kernel run by the Coq kernel; the point on the edge of the
+   triangle, inside it, and the two rays through the apex *)
+Example ex_float_polygon :
+  map (fun p => FloatKernels.fpoint_intersects_polygon
+                  (FloatKernels.Z2F (fst p)) (FloatKernels.Z2F (snd p))
+                  (map FloatKernels.Z2F [0; 0; 4; 0; 2; 2; 0; 0]%Z) [0; 8]%nat)
+      [(1, 1); (2, 1); (1, 2); (-1, 2); (3, 2); (-1, 0); (5, 0)]%Z
+  = map (fun p => point_intersects_polygon (fst p) (snd p) [0; 0; 4; 0; 2; 2; 0; 0]%Z [0; 8]%nat)
+      [(1, 1); (2, 1); (1, 2); (-1, 2); (3, 2); (-1, 0); (5, 0)]%Z.
+Proof. vm_compute; reflexivity. Qed.
+(* ---- (f) triangles, convex rings, convex shells with convex holes (no Jordan theorem) ----
+   Spec: Spec/ConvexSpec.v.  Proofs: Proofs/ConvexArith.v, ConvexWinding.v, ConvexPolygon.v,
+   ConvexSubdivide.v, ConvexGlue.v, ConvexExamples.v.  Required without Import (only the Spec
+   is imported) so that no short name of those proof files shadows anything in this file. *)
+From SP Require Proofs.ConvexArith Proofs.ConvexWinding Proofs.ConvexPolygon Proofs.ConvexSubdivide
+                Proofs.ConvexGlue Proofs.ConvexExamples.
+From SP Require Import Spec.ConvexSpec.
+
+(* every triangle A B C A, either orientation, no general-position assumption (rays through
+   vertices and along horizontal edges included): strictly on the same side of the three edge
+   lines => +1 (counter-clockwise) / -1 (clockwise); strictly on the outer side of one edge
+   line => 0 *)
+Theorem C02_wn_triangle : forall A B C P,
+  (strictly_inside_triangle A B C P ->
+     wn_ring P [A; B; C; A] = if Rlt_dec 0 (orient A B C) then 1%Z else (-1)%Z) /\
+  (strictly_outside_triangle A B C P -> wn_ring P [A; B; C; A] = 0%Z).
+Proof. exact ConvexPolygon.wn_triangle. Qed.
+Print Assumptions C02_wn_triangle.
+
+(* wn_additive for the fan of a ring from its first vertex: a v1 ... vk a is the sum of the
+   triangles a vi vi+1 a, for EVERY ring and EVERY point (also a point on a diagonal: the two
+   directed copies of a diagonal cancel exactly, C02_wn_edge_antisym) *)
+Theorem C02_wn_fan : forall P a l b,
+  wn_ring P (a :: b :: l ++ [a]) =
+  zsum (map (fun e => wn_ring P [a; fst e; snd e; a]) (consec (b :: l))).
+Proof. exact ConvexWinding.wn_fan. Qed.
+Print Assumptions C02_wn_fan.
+
+(* fan-triangulated rings (star-shaped from their first vertex, not necessarily convex): P
+   strictly inside one fan triangle and separated by a line from each of the others (e.g.
+   strictly outside it); points ON an internal diagonal are not covered by this statement
+   (for convex rings C02_wn_convex covers them) *)
+Theorem C02_wn_fan_triangulated : forall P a b l t1 B C t2,
+  consec (b :: l) = t1 ++ (B, C) :: t2 ->
+  Forall (fun e => separated [a; fst e; snd e] P) (t1 ++ t2) ->
+  (strictly_inside_triangle a B C P ->
+     wn_ring P (a :: b :: l ++ [a]) = if Rlt_dec 0 (orient a B C) then 1%Z else (-1)%Z) /\
+  (separated [a; B; C] P -> wn_ring P (a :: b :: l ++ [a]) = 0%Z).
+Proof. exact ConvexPolygon.wn_fan_triangulated. Qed.
+Print Assumptions C02_wn_fan_triangulated.
+
+(* [convex_ring ccw vs]: at least 3 vertices and EVERY three vertices taken in ring order turn
+   the same way (strictly).  "Every consecutive triple" would not do: ex_pentagram below. *)
+Theorem C02_wn_convex : forall ccw vs P, convex_ring ccw vs ->
+  (strictly_inside_convex ccw vs P ->
+     wn_ring P (close_ring vs) = if ccw then 1%Z else (-1)%Z) /\
+  (strictly_outside_convex ccw vs P -> wn_ring P (close_ring vs) = 0%Z).
+Proof. exact ConvexPolygon.wn_convex. Qed.
+Print Assumptions C02_wn_convex.
+
+(* in a convex ring every vertex other than an edge's own ends is strictly on the inner side
+   of that edge's line (the definition by triples implies the definition by edges) *)
+Theorem C02_convex_vertex_inner_side : forall ccw vs A B V,
+  convex_ring ccw vs -> In (A, B) (consec (close_ring vs)) -> In V vs ->
+  V = A \/ V = B \/ turn ccw A B V.
+Proof. exact ConvexPolygon.convex_vertex_inner_side. Qed.
+Print Assumptions C02_convex_vertex_inner_side.
+
+(* ANY closed ring (convex or not, simple or not): 0 at every point that some line separates
+   from all its vertices, i.e. outside its convex hull; generalises C02_wn_outside_bbox *)
+Theorem C02_wn_separated : forall P ring, closed ring -> separated ring P -> wn_ring P ring = 0%Z.
+Proof. exact ConvexWinding.wn_separated. Qed.
+Print Assumptions C02_wn_separated.
+
+(* the property's statement for every triangle handed to the code *)
+Theorem C02_polygon_triangle : forall x y values offs (A B C : pt),
+  rings_of values offs = [[fst A; snd A; fst B; snd B; fst C; snd C; fst A; snd A]%Z] ->
+  let P := (IZR x, IZR y) in
+  (strictly_inside_triangle (inj A) (inj B) (inj C) P ->
+     point_intersects_polygon x y values offs = true) /\
+  (strictly_outside_triangle (inj A) (inj B) (inj C) P ->
+     point_intersects_polygon x y values offs = false).
+Proof. exact ConvexPolygon.polygon_triangle. Qed.
+Print Assumptions C02_polygon_triangle.
+
+(* the property's statement, proved for convex shells (either orientation) with convex holes
+   wound opposite: True strictly inside the shell and strictly outside every hole; False
+   strictly outside the shell (holes in the closed shell); False strictly inside a hole *)
+Theorem C02_polygon_convex_with_convex_holes : forall x y values offs ccw shell holes,
+  map ring_of (rings_of values offs) = convex_polygon shell holes ->
+  convex_ring ccw shell -> Forall (convex_ring (negb ccw)) holes ->
+  let P := (IZR x, IZR y) in
+  (strictly_inside_convex ccw shell P -> outside_holes (negb ccw) holes P ->
+     point_intersects_polygon x y values offs = true) /\
+  (strictly_outside_convex ccw shell P -> Forall (ring_inside_convex ccw shell) holes ->
+     point_intersects_polygon x y values offs = false) /\
+  (forall h1 h h2, holes = h1 ++ h :: h2 ->
+     strictly_inside_convex ccw shell P -> strictly_inside_convex (negb ccw) h P ->
+     outside_holes (negb ccw) h1 P -> outside_holes (negb ccw) h2 P ->
+     point_intersects_polygon x y values offs = false).
+Proof. exact ConvexPolygon.polygon_convex_with_convex_holes. Qed.
+Print Assumptions C02_polygon_convex_with_convex_holes.
+
+(* wn_subdivide: a vertex inserted anywhere on the closed segment of an edge -- in particular
+   exactly at the height of the point, which turns a plain crossing into a "ray through a
+   vertex" -- changes nothing, for every ring and every point *)
+Theorem C02_wn_edge_subdivide : forall P A B M, on_seg A B M ->
+  (wn_edge P A M + wn_edge P M B = wn_edge P A B)%Z.
+Proof. exact ConvexSubdivide.wn_edge_subdivide. Qed.
+Print Assumptions C02_wn_edge_subdivide.
+
+Theorem C02_wn_subdivide : forall P l1 A M B l2, on_seg A B M ->
+  wn_ring P (l1 ++ A :: M :: B :: l2) = wn_ring P (l1 ++ A :: B :: l2).
+Proof. exact ConvexSubdivide.wn_subdivide. Qed.
+Print Assumptions C02_wn_subdivide.
+
+(* hence the same statement for weakly convex rings: the rings handed to the code may carry
+   any number of extra (collinear or repeated) vertices on the edges of the convex rings *)
+Theorem C02_polygon_convex_refined : forall x y values offs ccw shell holes,
+  Forall2 refines (map ring_of (rings_of values offs)) (convex_polygon shell holes) ->
+  convex_ring ccw shell -> Forall (convex_ring (negb ccw)) holes ->
+  let P := (IZR x, IZR y) in
+  (strictly_inside_convex ccw shell P -> outside_holes (negb ccw) holes P ->
+     point_intersects_polygon x y values offs = true) /\
+  (strictly_outside_convex ccw shell P -> Forall (ring_inside_convex ccw shell) holes ->
+     point_intersects_polygon x y values offs = false) /\
+  (forall h1 h h2, holes = h1 ++ h :: h2 ->
+     strictly_inside_convex ccw shell P -> strictly_inside_convex (negb ccw) h P ->
+     outside_holes (negb ccw) h1 P -> outside_holes (negb ccw) h2 P ->
+     point_intersects_polygon x y values offs = false).
+Proof. exact ConvexSubdivide.polygon_convex_refined. Qed.
+Print Assumptions C02_polygon_convex_refined.
+
+(* "strictly outside => False" for ANY closed rings (no validity assumption) at a point outside
+   the convex hull of each ring; contains the bounding-box clause of C02_polygon_partial *)
+Theorem C02_polygon_separated_false : forall x y values offs,
+  let rings := map ring_of (rings_of values offs) in
+  let P := (IZR x, IZR y) in
+  Forall closed rings -> Forall (fun ring => separated ring P) rings ->
+  point_intersects_polygon x y values offs = false.
+Proof. exact ConvexSubdivide.polygon_separated_false. Qed.
+Print Assumptions C02_polygon_separated_false.
+
+(* wn_additive: a ring cut into pieces along diagonals, recursively ([decomposes]: every
+   triangulation of a simple polygon is of this form), has the sum of the pieces' winding
+   numbers at EVERY point -- on a diagonal too (C02_wn_edge_antisym) *)
+Theorem C02_wn_additive : forall P R pieces, decomposes R pieces -> wn_ring P R = wn P pieces.
+Proof. exact ConvexGlue.wn_additive. Qed.
+Print Assumptions C02_wn_additive.
+
+(* NON-CONVEX rings given with a decomposition into counter-clockwise convex pieces (e.g. a
+   triangulation): 1 strictly inside a piece; 1 ALSO on an open diagonal shared by two pieces
+   (the half-open rule gives such a point to exactly one of the two); 0 outside every piece.
+   An interior point of a triangulated simple polygon is always in one of the first two
+   situations (a triangulation by diagonals has no interior vertex) -- that remark, and the
+   existence of a triangulation, are not formalised: the decomposition and the location of
+   the point are hypotheses, decidable by exact arithmetic for any concrete input *)
+Theorem C02_wn_decomposed : forall P R pieces,
+  decomposes R (map close_ring pieces) -> Forall (convex_ring true) pieces ->
+  (forall q1 vs q2, pieces = q1 ++ vs :: q2 ->
+     strictly_inside_convex true vs P -> away P (q1 ++ q2) -> wn_ring P R = 1%Z) /\
+  (forall q1 vs q2 ws q3 A B, pieces = q1 ++ vs :: q2 ++ ws :: q3 ->
+     on_edge_of_convex vs A B P -> on_edge_of_convex ws B A P ->
+     away P (q1 ++ q2 ++ q3) -> wn_ring P R = 1%Z) /\
+  (away P pieces -> wn_ring P R = 0%Z).
+Proof. exact ConvexGlue.wn_decomposed. Qed.
+Print Assumptions C02_wn_decomposed.
+
+(* the same about the code: the first ring (wound either way) is cut into convex pieces, the
+   other rings (holes) are closed and each separated from the point by a line *)
+Theorem C02_polygon_decomposed : forall x y values offs R others pieces,
+  map ring_of (rings_of values offs) = R :: others ->
+  decomposes R (map close_ring pieces) \/ decomposes (rev R) (map close_ring pieces) ->
+  Forall (convex_ring true) pieces ->
+  let P := (IZR x, IZR y) in
+  Forall closed others -> Forall (fun r => separated r P) others ->
+  (forall q1 vs q2, pieces = q1 ++ vs :: q2 ->
+     strictly_inside_convex true vs P -> away P (q1 ++ q2) ->
+     point_intersects_polygon x y values offs = true) /\
+  (forall q1 vs q2 ws q3 A B, pieces = q1 ++ vs :: q2 ++ ws :: q3 ->
+     on_edge_of_convex vs A B P -> on_edge_of_convex ws B A P ->
+     away P (q1 ++ q2 ++ q3) ->
+     point_intersects_polygon x y values offs = true) /\
+  (away P pieces -> point_intersects_polygon x y values offs = false).
+Proof. exact ConvexGlue.polygon_decomposed. Qed.
+Print Assumptions C02_polygon_decomposed.
+
+(* non-vacuity: the convex pentagon (0,0) (6,0) (8,4) (4,8) (-2,4) with the clockwise
+   triangular hole (2,2) (3,5) (5,2) satisfies every hypothesis of the theorem above, and
+   its three conclusions give the code's answers at
+     (1,4)  inside the shell, outside the hole; the ray crosses the hole and then runs
+            exactly through the shell vertex (8,4); the vertex (-2,4) is level with it;
+     (1,5)  inside; the ray runs exactly through the apex (3,5) of the hole;
+     (3,4)  inside the hole; the ray runs exactly through the shell vertex (8,4);
+     (-3,4) outside; the ray runs through (-2,4), the hole and (8,4) *)
+Example ex_convex_pentagon_with_hole :
+  let values := [0; 0; 6; 0; 8; 4; 4; 8; -2; 4; 0; 0;   2; 2; 3; 5; 5; 2; 2; 2]%Z in
+  let offs := [0; 12; 20]%nat in
+  let shell := map inj [(0, 0); (6, 0); (8, 4); (4, 8); (-2, 4)]%Z in
+  let hole := map inj [(2, 2); (3, 5); (5, 2)]%Z in
+  map ring_of (rings_of values offs) = convex_polygon shell [hole] /\
+  convex_ring true shell /\ Forall (convex_ring (negb true)) [hole] /\
+  Forall (ring_inside_convex true shell) [hole] /\
+  (strictly_inside_convex true shell (IZR 1, IZR 4) /\
+   outside_holes false [hole] (IZR 1, IZR 4) /\
+   point_intersects_polygon 1 4 values offs = true) /\
+  (strictly_inside_convex true shell (IZR 1, IZR 5) /\
+   outside_holes false [hole] (IZR 1, IZR 5) /\
+   point_intersects_polygon 1 5 values offs = true) /\
+  (strictly_inside_convex false hole (IZR 3, IZR 4) /\
+   point_intersects_polygon 3 4 values offs = false) /\
+  (strictly_outside_convex true shell (IZR (-3), IZR 4) /\
+   point_intersects_polygon (-3) 4 values offs = false).
+Proof. exact ConvexExamples.convex_pentagon_with_hole. Qed.
+Example ex_convex_pentagon_computed :
+  map (fun p => point_intersects_polygon (fst p) (snd p)
+                 [0; 0; 6; 0; 8; 4; 4; 8; -2; 4; 0; 0;   2; 2; 3; 5; 5; 2; 2; 2]%Z [0; 12; 20]%nat)
+      [(1, 4); (1, 5); (3, 4); (-3, 4)]%Z = [true; true; false; false].
+Proof. vm_compute; reflexivity. Qed.
+
+(* why [convex_ring] asks for all ordered triples: the pentagram through five points in convex
+   position turns left at every vertex, the origin is strictly left of all five edge lines,
+   and the winding number there is 2 (the code still answers True) *)
+Example ex_pentagram :
+  let v0 := inj (3, 0)%Z in let v2 := inj (-2, 2)%Z in let v4 := inj (1, -3)%Z in
+  let v1 := inj (1, 3)%Z in let v3 := inj (-2, -2)%Z in
+  let ring := [v0; v2; v4; v1; v3; v0] in
+  let O := (IZR 0, IZR 0) in
+  Forall (fun e => turn true (fst e) (snd e) O) (consec ring) /\
+  (turn true v0 v2 v4 /\ turn true v2 v4 v1 /\ turn true v4 v1 v3 /\
+   turn true v1 v3 v0 /\ turn true v3 v0 v2) /\
+  wn_ring O ring = 2%Z /\
+  point_intersects_polygon 0 0 [3; 0; -2; 2; 1; -3; 1; 3; -2; -2; 3; 0]%Z [0; 12]%nat = true.
+Proof. exact ConvexPolygon.pentagram_wn2. Qed.
+
+(* the square (0,0) (4,0) (4,4) (0,4) with the extra vertex (4,2) on its right-hand edge: the
+   ray from (1,2) runs exactly through the inserted vertex *)
+Example ex_square_extra_vertex :
+  let values := [0; 0; 4; 0; 4; 2; 4; 4; 0; 4; 0; 0]%Z in
+  let offs := [0; 12]%nat in
+  let shell := map inj [(0, 0); (4, 0); (4, 4); (0, 4)]%Z in
+  Forall2 refines (map ring_of (rings_of values offs)) (convex_polygon shell []) /\
+  convex_ring true shell /\
+  strictly_inside_convex true shell (IZR 1, IZR 2) /\
+  point_intersects_polygon 1 2 values offs = true.
+Proof. exact ConvexExamples.square_with_extra_vertex. Qed.
+
+(* a non-convex ring: the "L" (0,0) (4,0) (5,1) (4,2) (2,2) (2,4) (0,4), reflex at (2,2), cut
+   along the diagonal (0,0)-(2,2) into a convex pentagon and a convex quadrilateral.
+     (1,1) lies ON the diagonal; its ray runs exactly through the vertex (5,1);
+     (1,2) lies strictly inside the quadrilateral; its ray runs exactly through the reflex
+           vertex (2,2) and then along the horizontal edge (2,2)-(4,2) *)
+Example ex_ell_shape :
+  let values := [0; 0; 4; 0; 5; 1; 4; 2; 2; 2; 2; 4; 0; 4; 0; 0]%Z in
+  let offs := [0; 16]%nat in
+  let q1 := map inj [(0, 0); (4, 0); (5, 1); (4, 2); (2, 2)]%Z in
+  let q2 := map inj [(2, 2); (2, 4); (0, 4); (0, 0)]%Z in
+  map ring_of (rings_of values offs) = [ring_of values] /\
+  decomposes (ring_of values) (map close_ring [q1; q2]) /\
+  Forall (convex_ring true) [q1; q2] /\
+  (on_edge_of_convex q1 (inj (2, 2)%Z) (inj (0, 0)%Z) (IZR 1, IZR 1) /\
+   on_edge_of_convex q2 (inj (0, 0)%Z) (inj (2, 2)%Z) (IZR 1, IZR 1) /\
+   point_intersects_polygon 1 1 values offs = true) /\
+  (strictly_inside_convex true q2 (IZR 1, IZR 2) /\ away (IZR 1, IZR 2) [q1] /\
+   point_intersects_polygon 1 2 values offs = true).
+Proof. exact ConvexExamples.ell_shape. Qed.
